@@ -22,7 +22,7 @@ SPEC = {
     "min_evaluations": {"quick": 8000, "thorough": 60000},
     "must_reach": ["emitted_suite", "emitted_catalogue", "emitted_sequence", "emitted_corpus", "emitted_recipe", "emitted_labels", "emitted_immediates", "emitted_router", "emitted_abi",
                    "rejected_pt_error", "legal", "gated_constructs_seen"],
-    "shard_timeout": {"quick": 600, "thorough": 7200},
+    "shard_timeout": {"quick": 2400, "thorough": 14400},
 }
 
 BACKJUMP = "C04-backjump-below-v4"
